@@ -14,6 +14,7 @@
 """
 import re
 
+from engine.algebra import LocalDefs, data_slice
 from engine.cfg import CFG
 from engine.extract import Request
 from engine.loops import describe
@@ -759,6 +760,45 @@ def thorough(ctx):
     ctx.stats["extra_regions_writes_not_recognised (not obligations)"] = [t[:200] for ok, t in col.items if not ok]
 
 
+def rule_i_slots_sized_for_the_team(ctx, fns):
+    """A container indexed with omp_get_thread_num() needs one slot per thread of the team that runs the region.  INSIDE a parallel
+    region that number is omp_get_num_threads(); omp_get_max_threads() there is the limit for a NESTED region (1 for
+    OMP_NUM_THREADS=3,1, or after omp_set_num_threads / with a num_threads clause anything else), so a resize with it can leave the team
+    without slots (F81: heap overflow, wrong log-likelihood value).  OUTSIDE any region omp_get_num_threads() is 1 and
+    omp_get_max_threads() is the right bound."""
+    RULE = "C18.i-per-thread-slots-sized-for-the-team"
+    n = 0
+    seen = set()
+    for f in fns:
+        if f.body is None or (f.file, f.body.line) in seen:
+            continue
+        seen.add((f.file, f.body.line))
+        tn = _thread_num_vars(f.body)
+        per_thread = set()
+        for m in f.walk():
+            r, i = _subscript_root_and_index(m)
+            if r is not None and (key(i) in tn or key(i) == "omp_get_thread_num()"):
+                per_thread.add(r)
+        if not per_thread:
+            continue
+        defs = LocalDefs(f)
+        for m in f.walk():
+            if not (m.k == "CXXMemberCallExpr" and (m.callee or "").split("::")[-1] == "resize" and m.c and key(m.c[0].strip()) in per_thread and m.call_args()):
+                continue
+            X = key(m.c[0].strip())
+            sl = data_slice(f, [m.call_args()[0]], defs)
+            calls = {(x.callee or "").split("::")[-1] for x in sl if x.is_call()}
+            inside = any(a.k == "OMP" and a.get("omp", "").startswith("parallel") for a in m.ancestors())
+            uses_max, uses_num = "omp_get_max_threads" in calls, "omp_get_num_threads" in calls
+            if not (uses_max or uses_num):
+                continue
+            ok = uses_num and not uses_max if inside else uses_max and not uses_num
+            name = next((v.get("n") for v in f.walk() if v.k == "VarDecl" and "v%d" % v.get("d") == X), None) or X.replace("this.", "")
+            ctx.ob(RULE, f.qn + "(" + f.sig[:30] + ")", "resize:%s" % name, ok, m.where(), ("inside the region, sized with the team size omp_get_num_threads()" if inside else "outside any region, sized with omp_get_max_threads()") if ok else ("`%s` is indexed with the thread number and sized INSIDE the parallel region with omp_get_max_threads(): there that is the limit for a nested region, not the size of the team (OMP_NUM_THREADS=3,1: 1 slot for 3 threads)" % name if inside else "`%s` is sized OUTSIDE a parallel region with omp_get_num_threads(), which is 1 there" % name))
+            n += 1
+    return n
+
+
 def run(ctx):
     ctx.explanation = (
         "OpenMP configuration of the sources (the baseline build has STIR_OPENMP=OFF, so no test executes this code). Decides: "
@@ -801,6 +841,8 @@ def run(ctx):
         ctx.fail_broken("append-only table rule matched %d sites (2 confirmed by hand)" % ng)
     nh = rule_h_per_thread_reduction(ctx, regfns)
     ctx.require_count("C18.h-per-thread-reduction-complete", 6)
+    rule_i_slots_sized_for_the_team(ctx, regfns)
+    ctx.require_count("C18.i-per-thread-slots-sized-for-the-team", 6)
     ctx.require_count("C18.a-lazy-init", 25)
     ctx.require_count("C18.b-cache-lock", 5)
     ctx.require_count("C18.c-shared-writes", 6)
